@@ -130,3 +130,138 @@ def finish_worker(job, ex, violations, errors=None, note=None, validated=0, eval
     if note:
         r["note"] = note
     return r
+
+
+# ------------------------------------------------------------------------------------------------
+def expected_exc(e):
+    from pandapipes.pf.pipeflow_setup import PipeflowNotConverged
+    return isinstance(e, (PipeflowNotConverged, UserWarning))
+
+
+def pipeflow_worker(job, pipeflow_kwargs, oblig_fn, fixed_point=False, witnesses_fn=None,
+                    validate=2, cols=None, extra_assumptions_fn=None, build_kwargs=None,
+                    fluid_kwargs=None, max_cands=3, fork_paths=16, allow_exc=expected_exc,
+                    prepare_fn=None):
+    """generic worker: symbolic pipeflow on job['spec'], obligations from
+    oblig_fn(net, p, names, job) -> iterable of dicts(label, goal, fp, hyps_min(optional),
+    replay(optional dict merged into the replay payload))"""
+    from . import harness as H, nets, stubs
+    import pandapipes as pp
+    spec = job["spec"]
+    numba = bool(job.get("numba"))
+    patched, ass = H.install(numba_pyfunc=numba)
+    if prepare_fn is not None:
+        prepare_fn(job)
+    is_gas = spec["fluid"] != "water"
+    kw = dict(pipeflow_kwargs)
+    kw["use_numba"] = numba
+    bkw = dict(build_kwargs or {})
+    if cols is not None:
+        bkw["cols"] = cols
+
+    def run():
+        net, names = nets.build(spec, nets.sym_valuer(), fluid=stubs.make_sym_fluid(is_gas, **(fluid_kwargs or {})),
+                                **bkw)
+        pp.pipeflow(net, **kw)
+        return net
+
+    _, names = nets.build(spec, nets.sym_valuer(), **bkw)
+    A = list(ass) + nets.admissibility(names)
+    if extra_assumptions_fn is not None:
+        A += list(extra_assumptions_fn(names, job))
+    stubs.CTX.spsolve_mode = 'free'
+    H.CTX.fixed = set()
+    ex0 = H.explore_witnesses(run, [H.Witness(dict(names))], A)
+    p0 = ex0.paths[0]
+    if p0.exc is not None and not p0.systems:
+        errs = [] if allow_exc(p0.exc) else ["first path raised %r" % (p0.exc,)]
+        return finish_worker(job, ex0, [], errors=errs, note=repr(p0.exc))
+    H.CTX.fixed = H.discover_fixed(p0.systems)
+    # admissible states: absolute pressures and temperatures of the arbitrary pre-state positive
+    for (kind, _nm), (_init, symname) in p0.havoc.items():
+        if kind == "p":
+            A.append(z3.Real(symname) > -1)
+        elif kind in ("T", "Tout"):
+            A.append(z3.Real(symname) > 0)
+    stubs.CTX.spsolve_mode = 'fixed_point' if fixed_point else 'free'
+    try:
+        if job.get("mode") == "fork":
+            ex = H.explore(run, A, max_paths=fork_paths, feas_timeout_ms=1000)
+        else:
+            ws = witnesses_fn(names, p0, job) if witnesses_fn else [H.Witness(dict(names))]
+            ex = H.explore_witnesses(run, ws, A)
+    finally:
+        stubs.CTX.spsolve_mode = 'free'
+    viol, verr, validated = [], [], 0
+    if validate and not fixed_point:
+        for pi, p in enumerate(ex.paths[:validate]):
+            if p.witness is not None and p.exc is None:
+                n, bad = H.validate_against_impl(spec, p, kw, is_gas, build_kwargs=bkw)
+                validated += 1 if n else 0
+                verr += ["encoding validation, path %d: %s" % (pi, b) for b in bad[:3]]
+    nonvac = 0
+    for pi, p in enumerate(ex.paths):
+        if p.exc is not None:
+            if not allow_exc(p.exc):
+                verr.append("path %d raised %r" % (pi, p.exc))
+            continue
+        if p.witness is not None and not fixed_point:
+            bad = H.reach_by_witness(p)
+            if bad:
+                verr.append("path %d: witness does not satisfy hypothesis %s" % (pi, D._short(z3.simplify(bad[0]), 200)))
+            nonvac += 1
+        else:
+            nonvac += 1
+        hy_full = p.hyps()
+        for ob in oblig_fn(p.value, p, names, job):
+            fp = ob["fp"]
+            if sum(1 for v in viol if v["fingerprint"] == fp) >= max_cands:
+                continue
+            hy_min = ob.get("hyps_min")
+            if fixed_point or p.witness is None:
+                # reachability twin on the hypothesis set this obligation actually uses: a path
+                # selected by a witness that is not a fixed point may contradict `b = 0`; such a
+                # path proves nothing and is skipped (counted, never reported as discharged)
+                r0, _m = D.reachable(hy_min if hy_min is not None else hy_full, timeout_ms=3000)
+                if r0 == 'unsat':
+                    D.STATS.reach_failed -= 1
+                    job["_vacuous"] = job.get("_vacuous", 0) + 1
+                    continue
+                job["_nonvacuous"] = job.get("_nonvacuous", 0) + 1
+            r, m, how = D.check(hy_min if hy_min is not None else hy_full, ob["goal"],
+                                sample="%s path %d %s" % (job["name"], pi, ob["label"]),
+                                timeout_ms=ob.get("timeout_ms"))
+            if r == 'sat' and hy_min is not None:
+                r2, m2, _ = D.check(hy_full, ob["goal"], timeout_ms=5000)
+                if r2 == 'unsat':
+                    r = 'unsat'
+                elif r2 == 'sat':
+                    m = m2
+            if r == 'sat':
+                rp = {"spec": spec, "numba": numba, "label": ob["label"], "pipeflow_kwargs": pipeflow_kwargs,
+                      "values": model_inputs(m, names)}
+                rp.update(ob.get("replay", {}))
+                viol.append({"fingerprint": fp, "detail": {"job": job["name"], "obligation": ob["label"], "path": pi},
+                             "replay": rp})
+            elif r == 'unknown':
+                job.setdefault("_inconclusive", []).append("%s path %d" % (ob["label"], pi))
+    if fixed_point and job.get("_vacuous") and not job.get("_nonvacuous"):
+        verr.append("every obligation of this structure was vacuous under the fixed-point hypotheses")
+    if job.get("_vacuous"):
+        job.setdefault("_inconclusive", []).append("%d obligations skipped on paths that contradict the "
+                                                   "fixed-point hypotheses" % job["_vacuous"])
+    return finish_worker(job, ex, viol, errors=verr, validated=validated)
+
+
+def own_row(p, table, index, sec=0, which=-1, heat=False):
+    """constraint `b_row == 0` / row equation of the branch element's own row in the captured system"""
+    name = "%s:%s:%d" % (table, index, sec)
+    syss = [s for s in p.systems if (s["mode"] == "heat") == heat] or p.systems
+    s = syss[which]
+    r = len(s["node_names"]) + s["branch_names"].index(name)
+    return s["cons"][r]
+
+
+def base_hyps(p):
+    """assumptions + facts + path + definedness (no linear-system rows)"""
+    return p.hyps(lin=False)
